@@ -157,10 +157,15 @@ func coprimeStep(r *rand.Rand, m int) int {
 
 // poolColumn builds a range-shape column cycling through a pool of m elements.
 func poolColumn(r *rand.Rand, t *typ, m int, wide bool) string {
+	// positional NULL placement: NULLs confined to a row range whose ends sit around the
+	// Arrow batch boundaries (2048 rows), so that whole batches are NULL-free while
+	// others are not (the first batch without a NULL, a later one with, and vice versa)
+	positional := r.IntN(4) == 0
+	denseElems := positional && r.IntN(2) == 0
 	el := make([]string, m)
 	nonNull := false
 	for k := range el {
-		if r.IntN(6) == 0 {
+		if !denseElems && r.IntN(6) == 0 {
 			el[k] = "CAST(NULL AS " + poolElemType(t) + ")"
 		} else {
 			el[k] = elemSQL(r, t, wide, 0)
@@ -175,9 +180,25 @@ func poolColumn(r *rand.Rand, t *typ, m int, wide bool) string {
 	if t.FromText {
 		e = "CAST(" + e + " AS " + t.SQL + ")"
 	}
-	if r.IntN(3) == 0 {
+	if !denseElems && r.IntN(3) == 0 {
 		p := []int{2, 3, 5, 7, 11, 13}[r.IntN(6)]
 		e = fmt.Sprintf("CASE WHEN i %% %d = %d THEN NULL ELSE %s END", p, r.IntN(p), e)
+	}
+	if positional {
+		at := []int{1, 1000, 2047, 2048, 2049, 4096, 6000}[r.IntN(7)]
+		var cond string
+		switch r.IntN(3) {
+		case 0:
+			cond = fmt.Sprintf("i >= %d", at)
+		case 1:
+			cond = fmt.Sprintf("i < %d", at)
+		default:
+			cond = fmt.Sprintf("i >= %d AND i < %d", at, at+1+r.IntN(3000))
+		}
+		if r.IntN(2) == 0 {
+			cond += fmt.Sprintf(" AND i %% %d = 0", 2+r.IntN(5))
+		}
+		e = "CASE WHEN " + cond + " THEN NULL ELSE " + e + " END"
 	}
 	return e
 }
